@@ -1,6 +1,7 @@
 import GenlmModel.Model.FstOps
 import GenlmModel.Model.Transform
 import GenlmModel.Model.Horn
+import GenlmModel.Model.Mask
 /-! Executable mirror model of `CFG.__matmul__` (`genlm/grammar/cfg.py`): the composition of a
 weighted grammar with a weighted transducer (weighted Bar-Hillel construction with the ε handling of
 the library), and of its helper `CFG._compose_bottom_up_epsilon`.
@@ -146,4 +147,17 @@ def yieldLen (G : CFG σ K) (n : Nat) (X : σ) : Nat :=
   ((yields G n X).map fun p => p.1.length).foldr max 0
 
 end
+
+section
+variable {ι σ K : Type} [DecidableEq ι] [DecidableEq σ]
+/-- `compose` with the supported-item set computed ONCE and by the fast fixpoint engine `hlfpFast`
+(what the driver runs; equal to `compose`: `composeShared_eq`) -/
+def composeShared [Mul K] [One K] [Zero K] [DecidableEq K] (G : CFG σ K) (T : FST ι σ K) :
+    CFG (CSym ι σ) K :=
+  let items := hlfpFast (itemClauses G T)
+  { S := .start, V := composeV T,
+    rules := mkRules (((expandedRules G T).filter fun r => r.body.all (· ∈ items))
+      ++ startRules T ++ arcRules T) }
+end
+
 end Genlm
